@@ -95,6 +95,17 @@ def run(case, ctx, rng):
                 ctx.eq('same-object:enc==M^KS', call(lambda: o.enc(v, M)), want, after='hash(X) on the keyed object', **det)
                 for cut in sorted({0, 1, n // 2, max(0, n - 1), 64 if n > 64 else 0}):
                     ctx.eq('prefix', call(lambda: new().enc(v, M[:cut])), want[:cut], cut=cut, **det)
+                # the keystream generator used directly: an older, partly consumed generator of the same object is dropped while a newer
+                # one is in use (each block is computed from the nonce and its own block index)
+                if n >= 128 and hasattr(new(), 'keystream'):
+                    def two_generators():
+                        o = new()
+                        g1 = o.keystream(v); next(g1)
+                        g2 = o.keystream(v); b0 = next(g2)
+                        g1.close(); del g1
+                        b1 = next(g2)
+                        return b''.join(bytes(x.split(8).ival) if hasattr(x, 'split') else bytes(x) for x in (b0, b1))
+                    ctx.eq('enc==M^KS', call(two_generators), KS[:128], generators='an older generator closed while a newer one is running', **det)
                 # caller-owned buffers: the message as a bytearray, the nonce as a Bits the caller keeps; neither is changed,
                 # and the nonce object can be reused for the next message
                 from vmon.core import mutable_arg
